@@ -69,6 +69,12 @@ theorem eckhardt_safe (e : Ext) (nval : Int) (bad : Bool)
   unfold eckhardt
   wp_run
 
+/-- `c_dateutils_isleapyear`: remainders by the constants 4, 100, 400 -/
+theorem isleapyear_safe (year : Int) : Safe (isleapyear year) := by
+  apply safe_of_wp (Q := fun _ => True)
+  unfold isleapyear
+  wp_run
+
 /-- `c_dateutils_daysinmonth`, `c_dateutils_dayofyear`: the 13-entry tables are indexed behind the guards -/
 theorem daysinmonth_safe (month : Int) : Safe (daysinmonth month) := by
   apply safe_of_wp (Q := fun _ => True)
@@ -755,6 +761,111 @@ theorem delineateArea_safe (e : Ext) (nrows ncols nval ninlets idxoutlet : Int) 
           have := hw s rfl
           unfold LInv at this
           omega
+/-! ## rejected input: the error return / sentinel comes BEFORE any access
+
+"Input the kernels cannot handle is answered with a Python exception or the documented sentinel value": for the
+inputs below the model returns its error code (turned into `ValueError` by the Python wrapper — compared with the
+real code on every recorded call) or the documented sentinel, whatever the extents of the buffers: nothing is
+touched (equalities hold for every `e`, also `e = fun _ => 0`). -/
+
+theorem aggregate_rejects_empty (e : Ext) (nval : Int) (idx : Nat → Int) (h : nval < 1) :
+    aggregate e nval idx = .ok 1 := by
+  unfold aggregate; simp [h]; rfl
+
+theorem flathomogen_rejects_empty (e : Ext) (nval : Int) (idx : Nat → Int) (h : nval < 1) :
+    flathomogen e nval idx = .ok 1 := by
+  unfold flathomogen; simp [h]; rfl
+
+theorem eckhardt_empty (e : Ext) (nval : Int) (h : nval < 1) : eckhardt e nval false = .ok 0 := by
+  unfold eckhardt; simp [h]; rfl
+
+theorem eckhardt_rejects_badparam (e : Ext) (nval : Int) : eckhardt e nval true = .ok 1 := by
+  unfold eckhardt; simp; rfl
+
+theorem islin_empty (e : Ext) (nval npoints : Int) (lin : Nat → Bool) (h : nval < 1) :
+    islin e nval npoints lin = .ok 0 := by
+  unfold islin
+  have h2 : nval < 2 := by omega
+  have h1 : ¬ nval = 1 := by omega
+  simp [h2, h1]; rfl
+
+theorem armodelSim_rejects_order (e : Ext) (nval nparams : Int) (pnan : Nat → Bool) (bad : Bool)
+    (h : nparams ≤ 0 ∨ nparams > 10) : armodelSim e nval nparams pnan bad = .ok 1 := by
+  unfold armodelSim arChecks
+  have : nparams > arMax ∨ nparams ≤ 0 := by unfold arMax; omega
+  simp [this]; rfl
+
+theorem armodelResidual_rejects_order (e : Ext) (nval nparams : Int) (pnan : Nat → Bool) (bad : Bool)
+    (xnan : Nat → Bool) (h : nparams ≤ 0 ∨ nparams > 10) :
+    armodelResidual e nval nparams pnan bad xnan = .ok 1 := by
+  unfold armodelResidual arChecks
+  have : nparams > arMax ∨ nparams ≤ 0 := by unfold arMax; omega
+  simp [this]; rfl
+
+theorem ensrank_rejects_size (e : Ext) (nval ncol : Int) (h : ncol ≤ 0 ∨ nval ≤ 0) :
+    ensrank e nval ncol false = .ok 1 := by
+  unfold ensrank; simp [h]; rfl
+
+theorem voronoi_rejects (e : Ext) (nrows ncols ncells npoints : Int) (cells : Nat → Int)
+    (closer : Nat → Nat → Bool) (h : npoints < 1 ∨ nrows < 1 ∨ ncols < 1) :
+    voronoi e nrows ncols ncells npoints cells closer = .ok 1 := by
+  unfold voronoi
+  by_cases h1 : npoints < 1
+  · simp [h1]; rfl
+  · have h2 : nrows < 1 ∨ ncols < 1 := by omega
+    simp [h1, h2]; rfl
+
+theorem accumulate_rejects (e : Ext) (nrows ncols nprint maxcells : Int) (code fdir : Nat → Int)
+    (h : maxcells < 1 ∨ nrows < 1) : accumulate e nrows ncols nprint maxcells code fdir = .ok 1 := by
+  unfold accumulate
+  by_cases h1 : maxcells < 1
+  · simp [h1]; rfl
+  · have h2 : nrows < 1 := by omega
+    simp [h1, h2]; rfl
+
+theorem delineateArea_rejects_nval (e : Ext) (nrows ncols nval ninlets idxoutlet : Int)
+    (code fdir inlets : Nat → Int) (h : nval < 1) :
+    delineateArea e nrows ncols nval ninlets idxoutlet code fdir inlets = .ok 1 := by
+  unfold delineateArea; simp [h]; rfl
+
+theorem delineateBoundary_rejects_nval (e : Ext) (nrows ncols nval : Int) (cells mask : Nat → Int)
+    (h : nval < 1) : delineateBoundary e nrows ncols nval cells mask = .ok 1 := by
+  unfold delineateBoundary; simp [h]; rfl
+
+theorem excludeZeroArea_rejects (e : Ext) (nval : Int) (h : nval ≤ 2) : excludeZeroArea e nval = .ok 1 := by
+  unfold excludeZeroArea; simp [h]; rfl
+
+theorem combi_sentinel (n k : Int) (h : n < 0 ∨ k < 0 ∨ k > 30) : combi n k = .ok (-1) := by
+  unfold combi; simp [h]; rfl
+
+theorem var2h_rejects_options (e : Ext) (nvalvar nvalh nbsec rainfall hstart : Int) (sec : Nat → Int)
+    (h : rainfall < 0 ∨ rainfall > 1 ∨ (nbsec ≠ 1800 ∧ nbsec ≠ 3600)) :
+    var2h e nvalvar nvalh nbsec rainfall hstart sec = .ok 1 := by
+  unfold var2h
+  by_cases h1 : rainfall < 0 ∨ rainfall > 1
+  · simp [h1]; rfl
+  · have h2 : nbsec ≠ 1800 ∧ nbsec ≠ 3600 := by omega
+    simp [h1, h2]; rfl
+theorem neighbours_rejects_cell (e : Ext) (nrows ncols idx : Int)
+    (hN : -9223372036854775808 ≤ nrows * ncols ∧ nrows * ncols ≤ 9223372036854775807)
+    (h : idx < 0 ∨ idx ≥ nrows * ncols) : neighbours e nrows ncols idx = .ok 1 := by
+  unfold neighbours neighboursInto
+  simp [i64, i64min, i64max, hN.1, hN.2, h, bind, Except.bind, pure, Except.pure]
+
+/-- area cells outside the grid (below 0 after the sort): error return, only `idxcells_area` was touched -/
+theorem delineateBoundary_rejects_negative_cell (e : Ext) (nrows ncols nval : Int) (cells mask : Nat → Int)
+    (hv : 1 ≤ nval) (h1 : nval ≤ e .idxcellsArea)
+    (hN : -9223372036854775808 ≤ nrows * ncols ∧ nrows * ncols ≤ 9223372036854775807)
+    (hneg : cells 0 < 0) :
+    wp (delineateBoundary e nrows ncols nval cells mask) (fun c => c = 1) := by
+  unfold delineateBoundary
+  refine wp_ite (fun h => by omega) (fun _ => ?_)
+  refine wp_bind (wp_i64 hN ?_)
+  refine wp_bind (wp_forEach (fun i _ _ => wp_acc ⟨by omega, by omega⟩ trivial) ?_)
+  refine wp_bind (wp_rdI ⟨by omega, by omega⟩ ?_)
+  simp only [Int.toNat_zero]
+  exact wp_ite (fun _ => wp_pure rfl) (fun h => absurd hneg h)
+
 /-! ## wrapper obligations
 
 For every Cython wrapper `f` the generated `PyxSpec.f` gives the shapes, the integer scalars, the `assert`
@@ -1120,7 +1231,7 @@ theorem delineate_river_wrapper (s : delineate_river.Shapes) (v : delineate_rive
   · omega
   · push_cast; rw [a4]; omega
 
-theorem flowpathlengths_wrapper (s : delineate_flowpathlengths_in_catchment.Shapes)
+theorem delineate_flowpathlengths_in_catchment_wrapper (s : delineate_flowpathlengths_in_catchment.Shapes)
     (v : delineate_flowpathlengths_in_catchment.Scalars)
     (ha : delineate_flowpathlengths_in_catchment.asserts s v)
     (hn : NumpySize s.flowdir_0 s.flowdir_1) (code fdir cells : Nat → Int) :
@@ -1182,10 +1293,100 @@ theorem delineate_area_wrapper (s : delineate_area.Shapes) (v : delineate_area.S
   · omega
   · omega
 
+theorem isleapyear_wrapper (s : isleapyear.Shapes) (v : isleapyear.Scalars) :
+    Safe (C05.isleapyear (isleapyear.call s v).year) := by
+  apply safe_of_wp (Q := fun _ => True)
+  unfold C05.isleapyear
+  wp_run
+
+theorem daysinmonth_wrapper (s : daysinmonth.Shapes) (v : daysinmonth.Scalars) :
+    Safe (C05.daysinmonth (daysinmonth.call s v).month) := daysinmonth_safe _
+
+theorem dayofyear_wrapper (s : dayofyear.Shapes) (v : dayofyear.Scalars) :
+    Safe (C05.dayofyear (dayofyear.call s v).month (dayofyear.call s v).day) := dayofyear_safe _ _
+
+/-- every wrapper of the three `.pyx` files that reaches a kernel, in file order — each has its `_wrapper`
+theorem above; a wrapper added to (or removed from) a `.pyx` changes the generated list and breaks this -/
+theorem wrappers_covered : PyxSpec.wrappers.map (·.1) =
+    ["combi", "isleapyear", "daysinmonth", "dayofyear", "add1month", "add1day", "comparedates", "getdate",
+     "aggregate", "flathomogen", "islin", "var2h", "eckhardt",
+     "olsleverage", "armodel_sim", "armodel_residual", "crps", "ensrank", "ad_test", "pareto_front",
+     "coord2cell", "cell2coord", "cell2rowcol", "slice", "neighbours", "upstream", "downstream",
+     "delineate_area", "delineate_boundary", "exclude_zero_area_boundary", "delineate_river", "accumulate",
+     "intersect", "voronoi", "slope", "points_inside_polygon", "delineate_flowpathlengths_in_catchment"] := by
+  decide
 end wrappers
 
 
 /-! ## the hypotheses are satisfiable, the models are not trivially safe -/
+
+macro "ex_arith" : tactic => `(tactic| first | (norm_num [constExt]; done) | (simp [constExt]; done) | decide | (intros; simp [constExt] at *; omega))
+
+/-! one concrete, non-trivial instance of the hypotheses of every kernel theorem (extents `constExt n`: every
+buffer has `n` elements) -/
+def exCode : Nat → Int := fun j => [32, 64, 128, 16, 0, 1, 8, 4, 2].getD j 0
+def exFdir : Nat → Int := fun i => [4, 4, 4, 1, 16, 4, 0, 0, 0].getD i 0
+
+example : Safe (aggregate (constExt 4) 4 (fun i => (i / 2 : Nat))) := aggregate_safe _ _ _ (by ex_arith) (by ex_arith) (by ex_arith) (by ex_arith)
+example : Safe (flathomogen (constExt 4) 4 (fun i => (i / 2 : Nat))) := flathomogen_safe _ _ _ (by ex_arith) (by ex_arith) (by ex_arith)
+example : Safe (islin (constExt 6) 6 3 (fun i => decide (2 ≤ i))) := islin_safe _ _ _ _ (by ex_arith) (by ex_arith)
+example : Safe (eckhardt (constExt 5) 5 false) := eckhardt_safe _ _ _ (by ex_arith) (by ex_arith)
+example : Safe (comparedates (constExt 3) (fun _ => 2000) (fun i => 2000 + i)) := comparedates_safe _ _ _ (by ex_arith) (by ex_arith)
+example : Safe (add1month (constExt 3) (fun i => if i = 0 then 2147483647 else if i = 1 then 12 else 31)) :=
+  add1month_safe _ _ (by ex_arith) (by intro k; unfold I32; split <;> [skip; split] <;> omega)
+example : Safe (add1day (constExt 3) (fun i => if i = 0 then 2024 else if i = 1 then 2 else 29)) :=
+  add1day_safe _ _ (by ex_arith) (by intro k; unfold I32; split <;> [skip; split] <;> omega)
+example : Safe (getdate (constExt 3) true (some 2024) (some 202401) (some 20240131)) :=
+  getdate_safe _ _ _ _ (by ex_arith) (by norm_num) (by norm_num) (by norm_num) (by norm_num) _
+example : Safe (var2h (constExt 5) 5 4 3600 0 3600 (fun i => [0, 1000, 5000, 9000, 20000].getD i 0)) :=
+  var2h_safe _ _ _ _ _ _ _ (by ex_arith) (by ex_arith) (by ex_arith) (by norm_num) (by norm_num)
+example : Safe (combi 60 30) := combi_safe _ _ (by unfold I32; norm_num)
+example : Safe (armodelSim (constExt 10) 7 10 (fun _ => false) false) := armodelSim_safe _ _ _ _ _ (by ex_arith) (by ex_arith) (by ex_arith)
+example : Safe (armodelResidual (constExt 10) 7 10 (fun _ => false) false (fun i => decide (i = 3))) :=
+  armodelResidual_safe _ _ _ _ _ _ (by ex_arith) (by ex_arith) (by ex_arith)
+example : Safe (adTest (constExt 6) 6 (fun _ => false)) := adTest_safe _ _ _ (by ex_arith) (by ex_arith)
+example : Safe (olsleverage (constExt 12) 4 3) := olsleverage_safe _ _ _ (by norm_num) (by ex_arith) (by ex_arith) (by ex_arith) (by norm_num) (by norm_num)
+example : Safe (paretofront (constExt 12) 4 3 (fun i j => decide (i < j))) :=
+  paretofront_safe _ _ _ _ (by norm_num) (by ex_arith) (by ex_arith) (by norm_num)
+example : Safe (crps (constExt 28) 5 3 0 (fun _ _ => false)) :=
+  crps_safe _ _ _ _ _ (by norm_num) (by ex_arith) (by ex_arith) (by ex_arith) (by ex_arith) (by ex_arith) (by norm_num) (by norm_num)
+example : Safe (ensrank (constExt 16) 4 3 false) :=
+  ensrank_safe _ _ _ _ (by ex_arith) (by ex_arith) (by ex_arith) (by norm_num) (by norm_num) (by norm_num)
+example : Safe (coord2cell (constExt 10) 3 3 5 (fun i => if i = 0 then none else some (i : Int)) (fun _ => some 1)) :=
+  coord2cell_safe _ _ _ _ _ _ (by norm_num) (by ex_arith) (by ex_arith)
+example : Safe (cell2rowcol (constExt 10) 3 3 5 (fun i => (i : Int) * 3 - 1)) :=
+  cell2rowcol_safe _ _ _ _ _ (by norm_num) (by norm_num) (by norm_num) (by ex_arith) (by ex_arith)
+example : Safe (cell2coord (constExt 10) 3 3 5 (fun i => (i : Int) * 3 - 1)) :=
+  cell2coord_safe _ _ _ _ _ (by norm_num) (by norm_num) (by norm_num) (by ex_arith) (by ex_arith)
+example : Safe (neighbours (constExt 9) 3 3 4) := neighbours_safe _ _ _ _ (by norm_num) (by norm_num) (by norm_num) (by ex_arith)
+example : Safe (upstream (constExt 27) 3 3 3 exCode exFdir (fun i => (i : Int) * 4)) :=
+  upstream_safe _ _ _ _ _ _ _ (by norm_num) (by norm_num) (by norm_num) (by ex_arith) (by ex_arith) (by ex_arith) (by ex_arith)
+example : Safe (downstream (constExt 9) 3 3 3 exCode exFdir (fun i => (i : Int) * 4)) :=
+  downstream_safe _ _ _ _ _ _ _ (by norm_num) (by norm_num) (by norm_num) (by ex_arith) (by ex_arith) (by ex_arith) (by ex_arith)
+example : Safe (accumulate (constExt 9) 3 3 0 9 exCode exFdir) :=
+  accumulate_safe _ _ _ _ _ _ _ (by norm_num) (by norm_num) (by ex_arith) (by ex_arith) (by ex_arith) (by ex_arith)
+example : Safe (slope (constExt 9) 3 3 0 exCode exFdir) :=
+  slope_safe _ _ _ _ _ _ (by norm_num) (by norm_num) (by ex_arith) (by ex_arith) (by ex_arith) (by ex_arith)
+example : Safe (slice (constExt 9) 3 3 4 (fun _ => (some 1, some 1)) (fun _ => (some 2, some 1)) (fun _ => (none, some 0))) :=
+  slice_safe _ _ _ _ _ _ _ (by norm_num) (by ex_arith) (by ex_arith) (by ex_arith)
+example : Safe (voronoi (constExt 6) 3 3 5 3 (fun i => i) (fun i j => decide (i = j))) :=
+  voronoi_safe _ _ _ _ _ _ _ (by ex_arith) (by ex_arith) (by ex_arith)
+example : Safe (inside (constExt 8) 0 4 3 (fun i => decide (i = 1))) :=
+  inside_safe _ _ _ _ _ (by norm_num) (by norm_num) (by ex_arith) (by ex_arith) (by ex_arith) (by ex_arith) (by ex_arith) (by norm_num)
+example : Safe (excludeZeroArea (constExt 10) 5) := excludeZeroArea_safe _ _ (by ex_arith) (by ex_arith)
+example : Safe (delineateRiver (constExt 20) 3 3 4 0 exCode exFdir) :=
+  delineateRiver_safe _ _ _ _ _ _ _ (by norm_num) (by norm_num) (by norm_num) (by ex_arith) (by ex_arith) (by ex_arith) (by ex_arith) (by ex_arith)
+example : Safe (flowpathlengths (constExt 12) 3 3 4 7 exCode exFdir (fun i => i)) :=
+  flowpathlengths_safe _ _ _ _ _ _ _ _ (by norm_num) (by norm_num) (by norm_num) (by ex_arith) (by ex_arith) (by ex_arith) (by ex_arith)
+example : Safe (intersect (constExt 12) 3 4 6 (fun i => (some (i % 4 : Nat), some 1))) :=
+  intersect_safe _ _ _ _ _ (by norm_num) (by norm_num) (by norm_num) (by ex_arith) (by ex_arith) (by ex_arith) (by ex_arith)
+example : Safe (delineateBoundary (constExt 9) 3 3 3 (fun k => if k = 2 then 5 else 2) (fun _ => 1)) :=
+  delineateBoundary_safe _ _ _ _ _ _ (by norm_num) (by norm_num)
+    (by intro i j hij hj; split <;> split <;> omega) (by ex_arith) (by ex_arith) (by ex_arith) (by ex_arith)
+example : Safe (delineateArea (constExt 9) 3 3 9 1 7 exCode exFdir (fun _ => 0)) :=
+  delineateArea_safe _ _ _ _ _ _ _ _ _ (by norm_num) (by norm_num) (by norm_num) (by ex_arith) (by ex_arith) (by ex_arith)
+    (by ex_arith) (by ex_arith) (by ex_arith)
+
 
 /-- a concrete run: 4 values in 2 groups touch `outputs[0..1]`, `iend[0]` -/
 example : aggregate (fun b => match b with | .aggindex => 4 | .inputs => 4 | .outputs => 2 | .iend => 1 | _ => 0)
